@@ -20,18 +20,23 @@ WITNESS = {
     "S1": [["LsOpen", "new"], ["AppWrite", 1], ["LsSyncAndWait"], ["LsClose"], ["SaveAll"], ["LsOpen", "new"], ["AppWrite", 1],
            ["LsSyncAndWait"], ["LsClose"], ["RestoreAll"], ["LsOpen", "new"], ["AppWrite", 2], ["LsSyncAndWait"], ["AppWrite", 3],
            ["LsSyncAndWait"], ["LsClose"]],
+    # Q1: every litestream call under a request-scoped context (cfg reqCtx): the read transaction began by the first sync dies
+    # with that context, the application's TRUNCATE checkpoint is no longer blocked, the uncopied frame is gone
+    "Q1": [["LsOpen", "new"], ["AppGrowWrite"], ["LsSync"], ["AppWrite", 2], ["AppCheckpoint", "TRUNCATE"], ["AppWrite", 3], ["LsSyncAndWait"],
+           ["AppWrite", 4], ["AppCheckpoint", "RESTART"], ["AppWrite", 5], ["LsSyncAndWait"], ["LsClose"]],
     "F3": [["LsOpen", "new"]] + [["AppGrow", 1], ["LsSyncAndWait"]] * 5 + [["LsReset"], ["AppWrite", 3], ["LsSyncAndWait"]],
 }
 
 PLANS = {
     "C01": dict(
         mc=[("MC_Core_q.cfg", "code as it is: pages 3, versions 2, WAL 4, TXIDs 5, gens 4, 1 down, all checkpoint modes, checkpoint sub-steps interleaved with the application")],
-        mc_thorough=[("MC_Core_asis.cfg", "same with versions 3"), ("MC_Core_asis4.cfg", "same with versions 4"), ("MC_Core_pinned.cfg", "NEGATIVE CONTROL: the pinned transitions (before the fix: commits) - TLC must find the F1/F2/G1 data-loss histories")],
+        mc_thorough=[("MC_Core_asis.cfg", "same with versions 3"), ("MC_Core_asis4.cfg", "same with versions 4"), ("MC_Core_pinned.cfg", "NEGATIVE CONTROL: the pinned transitions (before the fix: commits) - TLC must find the F1/F2/G1 data-loss histories"),
+                     ("MC_Core_q1.cfg", "NEGATIVE CONTROL: read transaction bound to a request context (Q1, before its fix) - TLC must find the data-loss history")],
         sim=[("Sim_Core_run.cfg", 80, 600, 40), ("Sim_Core_gated.cfg", 100, 900, 45)],
         dump=("Dump_Core.cfg", 250, 2500),
         random=dict(n=80, n_thorough=800, length=28, with_down=False, with_state_loss=False),
         invariants=["C01_RestoreEqualsSource", "C01_RestoreIntegrity"],
-        witnesses=["F1", "F2", "F3", "G1", "S1"],
+        witnesses=["F1", "F2", "F3", "G1", "S1", "Q1"],
         nontrivial="distinct schedule with at least one acknowledgement after application writes (restore compared with the source)",
     ),
     "C04": dict(
@@ -42,7 +47,7 @@ PLANS = {
         random=dict(n=200, n_thorough=1200, length=34, with_down=True, with_state_loss=True),
         directed=True,
         invariants=["C04_AckMeansReplicaAtLocalPos", "C04_ResnapshotAfterLoss", "C01_RestoreEqualsSource"],
-        witnesses=["F1", "F2", "F3", "S1"],
+        witnesses=["F1", "F2", "F3", "S1", "Q1"],
         nontrivial="distinct schedule in which litestream was stopped/reset/lost state and application activity happened before the next acknowledgement",
     ),
     "C02": dict(
@@ -165,6 +170,8 @@ def build_cases(plan, tier, seed, wd, rep):
         if not any(st[0] == "LsOpen" for st in d[:1]):
             d = [["LsOpen", "new"]] + d
         cfg["full"] = (i % 4 == 1)      # these traces also carry the pre-state for the Core.tla binding
+        # every litestream call under its own context, cancelled when the call returns (what request handlers do; Core.tla: ReqCtx)
+        cfg["reqCtx"] = (i % 3 == 2) or label == "witness:Q1"
         cases.append({"id": i, "cfg": cfg, "sched": d, "label": label})
     return cases
 
@@ -200,6 +207,8 @@ def run(prop, argv):
                 rep.add_tlc(cfgname, r, what)
                 if r.violated:
                     rep.notes.append("design-level counterexample in Core.tla (%s): %s - reported only if reproduced on the real code" % (cfgname, r.violated))
+                elif what.startswith("NEGATIVE CONTROL"):
+                    raise vlib.MachineryError("negative control %s found no counterexample: the model no longer reaches the defect it was written down for" % cfgname)
                 for f in os.listdir(wd):
                     if "_TTrace_" in f:
                         os.unlink(os.path.join(wd, f))
